@@ -42,6 +42,7 @@ def getMatch (m : Matcher) : List Seg → Bytes → List Bytes → Nat → Optio
   | .param k :: segs, path, params, it =>
     let i := m.paramLen k path
     if !m.optional k && i == 0 then none
+    else if params.length ≤ it then none                         -- a request holds at most maxParams values
     else
       let params := params.set it (path.take i)                 -- params[paramsIterator] = path[:i]
       if !(m.optional k && i == 0) && !m.constraintsOk k (params.getD it []) then none
@@ -85,7 +86,9 @@ theorem getMatch_indep (m : Matcher) (segs : List Seg) :
       simp only [getMatch]
       by_cases h1 : (!m.optional k && m.paramLen k path == 0) = true
       · rw [if_pos h1, if_pos h1]; trivial
-      · rw [if_neg h1, if_neg h1]
+      · have g1 : ¬ a.length ≤ it := by omega
+        have g2 : ¬ a'.length ≤ it := by omega
+        rw [if_neg h1, if_neg h1, if_neg g1, if_neg g2]
         rw [getD_set_self a it _ hit, getD_set_self a' it _ hit']
         by_cases h2 : (!(m.optional k && m.paramLen k path == 0) && !m.constraintsOk k (List.take (m.paramLen k path) path)) = true
         · rw [if_pos h2, if_pos h2]; trivial
